@@ -1,12 +1,123 @@
 import CTM.Drive.Util
+import CTM.Drive.Tree
+import CTM.Model.LevelLoop
 open Lean
 
 namespace CTM.Drive.LevelLoop
-open CTM CTM.Drive
+open CTM CTM.Drive CTM.LevelLoop
 
-/-- ops of this module (stub: none yet) -/
-def handle : Handler := fun op _inp =>
+/-! JSON forms
+  parent  : null | [level, node]
+  vote    : {"a": node, "p": rat, "c": rat|null, "ru": null | [[node, valid, corr, prob], ...]}
+  oracle  : [[parent, cell, vote], ...]   (cell = a Nat naming the cell's expression vector)
+  entry   : {"a", "p", "c", "ru": null | [[nodes],[rats],[rats]], "agg": rat|null, "d": bool|null}
+  record  : {"id": cellId, "levels": [[level, entry], ...]}
+-/
+
+def parseParent (j : Json) : R Parent := asOption (asPair asNat asNat) j
+
+def parseRunnerUp (j : Json) : R RunnerUp := do
+  match ← asArr j with
+  | [n, v, c, p] => return { node := ← asNat n, valid := ← asBool v, corr := ← asRat c, prob := ← asRat p }
+  | _ => .error "runner-up 4-tuple expected"
+
+def parseVote (j : Json) : R Vote := do
+  let a ← asNat (← field j "a")
+  let p ← asRat (← field j "p")
+  let c ← asOption asRat (fieldD j "c" Json.null)
+  let ru ← asOption (asList parseRunnerUp) (fieldD j "ru" Json.null)
+  return { assignment := a, prob := p, corr := c, runnersUp := ru }
+
+/-- a vote for a (parent, cell) the harness did not script: a node id no tree
+contains, so that the model's answer cannot silently agree -/
+def missingVote : Vote := { assignment := 4000000000, prob := 0, corr := none, runnersUp := none }
+
+def parseOracle (j : Json) : R (Oracle Nat) := do
+  let rows ← asList (fun r => do
+    match ← asArr r with
+    | [p, c, v] => return ((← parseParent p, ← asNat c), ← parseVote v)
+    | _ => .error "oracle row [parent, cell, vote] expected") j
+  return fun p _ c => (rows.lookup (p, c)).getD missingVote
+
+def jEntry (e : Entry) : Json :=
+  jObj [("a", jNat e.assignment), ("p", jRat e.prob), ("c", jOpt jRat e.corr),
+        ("ru", jOpt (fun (a, c, p) => Json.arr #[jNats a, jList jRat c, jList jRat p]) e.ru),
+        ("agg", jOpt jRat e.agg), ("d", jOpt jBool e.direct)]
+
+def parseEntry (j : Json) : R Entry := do
+  let a ← asNat (← field j "a")
+  let p ← asRat (← field j "p")
+  let c ← asOption asRat (fieldD j "c" Json.null)
+  let ru ← asOption (fun r => do
+    match ← asArr r with
+    | [x, y, z] => return (← natList x, ← ratList y, ← ratList z)
+    | _ => .error "ru triple expected") (fieldD j "ru" Json.null)
+  let agg ← asOption asRat (fieldD j "agg" Json.null)
+  let d ← asOption asBool (fieldD j "d" Json.null)
+  return { assignment := a, prob := p, corr := c, ru := ru, agg := agg, direct := d }
+
+def jLevels (ls : List (Level × Entry)) : Json := jList (jPair jNat jEntry) ls
+
+def jRecord (r : Record) : Json := jObj [("id", jNat r.cellId), ("levels", jLevels r.levels)]
+
+def parseRecord (j : Json) : R Record := do
+  let id ← asNat (← field j "id")
+  let ls ← asList (asPair asNat parseEntry) (← field j "levels")
+  return { cellId := id, levels := ls }
+
+def jExcept {α} (f : α → Json) : Except Err α → Json
+  | .ok a => jObj [("ok", f a)]
+  | .error e => jObj [("err", jStr e.name)]
+
+def parseConfig (j : Json) : R Config := do
+  let dl ← asOption asNat (fieldD j "dropLevel" Json.null)
+  let fl ← asBool (fieldD j "flatten" (Json.bool false))
+  let cs ← asNat (← field j "chunkSize")
+  let np ← asNat (← field j "nProc")
+  return { dropLevel := dl, flatten := fl, chunkSize := cs, nProc := np }
+
+def handle : Handler := fun op inp =>
   match op with
+  | "levelloop.run" => some do
+      let t ← Tree.parseTree (← field inp "tree")
+      let vote ← parseOracle (← field inp "oracle")
+      let cells ← natList (← field inp "cells")
+      return jObj [
+        ("loop", jExcept (jList jLevels) (runLevelLoop t vote cells)),
+        ("walk", jExcept (jList jLevels) (cells.mapM (walk t vote))),
+        ("wf", jBool (wfb t))]
+  | "levelloop.pipeline" => some do
+      let t ← Tree.parseTree (← field inp "tree")
+      let cfg ← parseConfig (← field inp "config")
+      let vote ← parseOracle (← field inp "oracle")
+      let ids ← natList (← field inp "ids")
+      let cells ← natList (← field inp "cells")
+      let order ← natList (← field inp "order")
+      let n := cells.length
+      let cs := effChunk n cfg.nProc cfg.chunkSize
+      return jObj [
+        ("result", jExcept (jList jRecord) (mapPipeline t cfg vote ids cells order)),
+        ("runTree", jExcept Tree.jTree (runTree t cfg)),
+        ("runTreeWf", jBool (match runTree t cfg with | .ok rt => wfb rt | .error _ => false)),
+        ("effChunk", jNat cs),
+        ("chunks", jList (jPair jNat jNat) (chunks n cs))]
+  | "levelloop.wf" => some do
+      let t ← Tree.parseTree (← field inp "tree")
+      return jBool (wfb t)
+  | "levelloop.backfill" => some do
+      let t ← Tree.parseTree (← field inp "tree")
+      let rs ← asList parseRecord (← field inp "records")
+      return jExcept (jList jRecord) (backfill t rs)
+  | "levelloop.reorder" => some do
+      let ids ← natList (← field inp "ids")
+      let rs ← asList parseRecord (← field inp "records")
+      return jExcept (jList jRecord) (reorderBlob ids rs)
+  | "levelloop.chunks" => some do
+      let n ← asNat (← field inp "n")
+      let np ← asNat (← field inp "nProc")
+      let cs ← asNat (← field inp "chunkSize")
+      let e := effChunk n np cs
+      return jObj [("effChunk", jNat e), ("chunks", jList (jPair jNat jNat) (chunks n e))]
   | _ => none
 
 end CTM.Drive.LevelLoop
